@@ -374,7 +374,19 @@ def normalize(t) -> Rat:
     if o == "sub":
         return normalize(t.args[0]) - normalize(t.args[1])
     if o == "mul":
-        return normalize(t.args[0]) * normalize(t.args[1])
+        # a factor outside the decidable class does not matter when the other factor is identically zero
+        vals, err = [], None
+        for x in t.args:
+            try:
+                vals.append(normalize(x))
+            except AnalysisError as e:
+                vals.append(None)
+                err = e
+        if err is not None:
+            if any(v is not None and v.is_zero() for v in vals):
+                return C(0)
+            raise err
+        return vals[0] * vals[1]
     if o == "div":
         return normalize(t.args[0]) / normalize(t.args[1])
     if o == "neg":
@@ -409,6 +421,8 @@ def _trig(o: str, a: T) -> Rat:
         return _trig("sin", a) / _trig("cos", a)
     if a.op == "var":
         return A((o, a.val))
+    if a.op == "num" and a.val == 0:
+        return C(0) if o == "sin" else C(1)
     if a.op == "atan2":
         y, x = normalize(a.args[0]), normalize(a.args[1])
         h = sqrt_rat(x * x + y * y)
@@ -540,3 +554,69 @@ def decide_equal(a: Rat, b: Rat, what: str = "") -> tuple[bool, Optional[dict]]:
 
 def same(a: Rat, b: Rat, what: str = "") -> bool:
     return decide_equal(a, b, what)[0]
+
+
+def eval_term(t, point: dict) -> float:
+    """Direct numeric value of a term (no derivatives) at `point`; used only to exhibit a witness when a term leaves the
+    class the normal form decides."""
+    import math
+    if isinstance(t, int):
+        return float(t)
+    o = t.op
+    if o == "num":
+        return float(t.val)
+    if o == "var":
+        return point[t.val]
+    a = [eval_term(x, point) for x in t.args] if o not in ("fun", "diff") else []
+    if o == "add":
+        return a[0] + a[1]
+    if o == "sub":
+        return a[0] - a[1]
+    if o == "mul":
+        return a[0] * a[1]
+    if o == "div":
+        return a[0] / a[1]
+    if o == "neg":
+        return -a[0]
+    if o == "pow":
+        return a[0]**a[1]
+    if o == "sqrt":
+        return math.sqrt(a[0])
+    if o in ("sin", "cos", "tan", "acos", "asin"):
+        return getattr(math, o)(a[0])
+    if o == "atan2":
+        return math.atan2(a[0], a[1])
+    raise AnalysisError(f"algebra: cannot evaluate {t!r} numerically")
+
+
+def _vars_of(t, out: set) -> None:
+    if isinstance(t, int):
+        return
+    if t.op == "var":
+        out.add(t.val)
+    for x in t.args:
+        _vars_of(x, out)
+
+
+def same_terms(a, b, what: str = "") -> bool:
+    """Equality of two terms: exact normal form when both are in the decidable class; otherwise a numeric witness can still
+    prove them different (agreement at all sample points outside the class stays undecided: ANALYSIS-ERROR)."""
+    try:
+        return same(normalize(a), normalize(b), what)
+    except AnalysisError as e:
+        if "outside the decidable class" not in str(e) and "unsupported exponent" not in str(e):
+            raise
+        import random
+        rng = random.Random(977)
+        names: set = set()
+        _vars_of(a, names)
+        _vars_of(b, names)
+        for _ in range(6):
+            point = {n: rng.uniform(0.35, 1.25) for n in names}
+            try:
+                va, vb = eval_term(a, point), eval_term(b, point)
+            except (ValueError, ZeroDivisionError, OverflowError):
+                continue
+            if abs(va - vb) > 1e-7 * max(1.0, abs(va), abs(vb)):
+                return False
+        raise
